@@ -555,7 +555,7 @@ class Twist3(SMTwist):
         :seealso: :func:`~spatialmath.base.transforms3d.trotx`
         :SymPy: supported
         """
-        return cls([np.r_[0,0,0,x,0,0] for x in base.getunit(theta, unit=unit)])
+        return cls([np.r_[0,0,0,x,0,0] for x in base.getvector(base.getunit(theta, unit=unit))])
 
     @classmethod
     def Ry(cls, theta, unit='rad', t=None):
@@ -586,7 +586,7 @@ class Twist3(SMTwist):
         :seealso: :func:`~spatialmath.base.transforms3d.troty`
         :SymPy: supported
         """
-        return cls([np.r_[0,0,0,0,x,0] for x in base.getunit(theta, unit=unit)])
+        return cls([np.r_[0,0,0,0,x,0] for x in base.getvector(base.getunit(theta, unit=unit))])
 
     @classmethod
     def Rz(cls, theta, unit='rad', t=None):
@@ -617,7 +617,7 @@ class Twist3(SMTwist):
         :seealso: :func:`~spatialmath.base.transforms3d.trotz`
         :SymPy: supported
         """
-        return cls([np.r_[0,0,0,0,0,x] for x in base.getunit(theta, unit=unit)])
+        return cls([np.r_[0,0,0,0,0,x] for x in base.getvector(base.getunit(theta, unit=unit))])
 
     @classmethod
     def Rand(cls, *, xrange=(-1, 1), yrange=(-1, 1), zrange=(-1, 1), N=1):  # pylint: disable=arguments-differ
